@@ -62,4 +62,21 @@ def largestPowerOfTwoBelow (n : Int) : Int :=
   let power := largestPowerOfTwoBelow_loop1 (64) n power
   power
 
+/-- translated from kes/kes.go:193 `MaxPeriod` -/
+def kesMaxPeriod (depth : Int) : Int :=
+  wrapU 64 (wrapU 64 (1) * 2 ^ (depth).toNat)
+
+/-- translated from kes/kes.go:175 `SignatureSize` -/
+def kesSignatureSize (depth : Int) : Int :=
+  let bytesPerLevel : Int := wrapU 64 (64)
+  let additionalBytes : Int := wrapU 64 (depth * bytesPerLevel)
+  if (decide (depth > 0) && decide ((additionalBytes / depth) ≠ bytesPerLevel)) then
+    wrapS 64 (- 1)
+  else
+    let totalBytes : Int := wrapU 64 (wrapU 64 (64) + additionalBytes)
+    if (decide (totalBytes < wrapU 64 (64)) || decide (totalBytes > wrapU 64 (9223372036854775807))) then
+      wrapS 64 (- 1)
+    else
+      wrapS 64 (totalBytes)
+
 end GV.Gen.GoLite
